@@ -16,6 +16,8 @@
        sa_begin(r, m, kind, tag) / sa_end(m)   around RemoteMap::resolve_remote -> SaLookup / SaSend
        ts_lookup(r, m, found) / ts_send(m, res)  sender clone from the read-only map, try_send -> TsLookup / TsSend
        reply(m, res)          a oneshot reply became visible ("dropped": the sender was dropped unanswered)
+       cancel                 the shutdown token was cancelled                  -> Cancel
+       net_change             RemoteMap::on_network_change                      -> NetChange
        end                    the harness let everything finish (lookups ended, tasks joined)
 
    The hidden step LookupFinish (the actor handling the end of a lookup has no event) is taken
@@ -38,6 +40,7 @@ TReset == /\ IsEvent("reset")
           /\ joinable' = {} /\ sapc' = SaIdle /\ tspc' = TsIdle
           /\ req' = [m \in 1..MaxReq |-> NoReq] /\ nreq' = 0
           /\ handled' = [r \in Remotes |-> <<>>] /\ accepted' = {} /\ answered' = {}
+          /\ cancelled' = FALSE /\ dropped' = {}
           /\ replied' = {} /\ lost' = {} /\ ended' = FALSE
 
 TSaBegin == /\ IsEvent("sa_begin") /\ SaLookup(Rec[l].r, Rec[l].kind, Rec[l].tag) /\ nreq' = Rec[l].m /\ Same
@@ -64,14 +67,16 @@ THandle == /\ IsEvent("handle") /\ Same
 \* it may have happened just before the idle decision (if the requests were in fact dropped, their replies
 \* show up as "dropped" and NothingLost fails).
 FinishThenIdle(i) ==
-  /\ inst[i].phase = "running" /\ inst[i].inbox = <<>> /\ inst[i].waiting # {}
+  /\ inst[i].phase = "running" /\ inst[i].inbox = <<>> /\ inst[i].waiting # {} /\ ~cancelled
   /\ answered' = answered \cup inst[i].waiting
   /\ inst' = [inst EXCEPT ![i].waiting = {}, ![i].phase = "deciding"]
-  /\ UNCHANGED <<sender, ninst, joinable, sapc, tspc, req, nreq, handled, accepted>>
+  /\ UNCHANGED <<sender, ninst, joinable, sapc, tspc, req, nreq, handled, accepted, cancelled, dropped>>
 TIdle == /\ IsEvent("idle_break") /\ Rec[l].inst <= ninst /\ Same
          /\ IdleDecide(Rec[l].inst) \/ FinishThenIdle(Rec[l].inst)
-TClosed == /\ IsEvent("closed") /\ Rec[l].inst <= ninst /\ Len(inst[Rec[l].inst].inbox) = Rec[l].n
-           /\ Close(Rec[l].inst) /\ Same
+TClosed == /\ IsEvent("closed") /\ Rec[l].inst <= ninst /\ Len(inst[Rec[l].inst].inbox) = Rec[l].n /\ Same
+           /\ IF inst[Rec[l].inst].phase = "deciding" THEN Close(Rec[l].inst) ELSE CloseOnShutdown(Rec[l].inst)
+TCancel == IsEvent("cancel") /\ Cancel /\ Same
+TNetChange == IsEvent("net_change") /\ NetChange /\ Same
 TTsLookup == /\ IsEvent("ts_lookup") /\ Same
              /\ IF Rec[l].found = 1 THEN TsLookup(Rec[l].r, "info") /\ nreq' = Rec[l].m
                 ELSE sender[Rec[l].r] = 0 /\ UNCHANGED vars
@@ -87,13 +92,14 @@ TDropped == /\ IsEvent("reply") /\ Rec[l].res = "dropped"
 TEnd == IsEvent("end") /\ ended' = TRUE /\ UNCHANGED <<vars, replied, lost>>
 
 TNext == TReset \/ TSaBegin \/ TStart \/ TRemove \/ TSaEnd \/ THandle \/ TIdle \/ TClosed
-         \/ TTsLookup \/ TTsSend \/ TReply \/ TDropped \/ TEnd
+         \/ TTsLookup \/ TTsSend \/ TReply \/ TDropped \/ TEnd \/ TCancel \/ TNetChange
 TSpec == TInit /\ [][TNext]_tvars
 
 \* no reply channel is ever dropped unanswered, and when the run has finished every request made
 \* through send_to_actor and every accepted try_send has been answered
-NothingLost == lost = {}
-AllAnsweredAtEnd == ended => \A m \in Made : m \in replied
+\* (an endpoint shutdown may drop the reply channels of requests that were waiting for a lookup: `dropped`)
+NothingLost == lost \subseteq dropped
+AllAnsweredAtEnd == ended => \A m \in Made : m \in replied \/ m \in dropped
 
 Accepted == LET d == TLCGet("stats").diameter - 1 IN
             IF d = Len(Rec) THEN TRUE
